@@ -182,6 +182,8 @@ func dtLine(d rscp.DataType) string {
 
 func init() {
 	streams["vocab"] = func(g *gen, cw *caseWriter, n int, thorough bool) {
+		// the vocabulary is inspected after a history of calls with ordinary and odd inputs
+		stressAPI(g)
 		cw.add("codes", "codes-ok", "T vocab name-codes", "")
 		// the published vocabulary (frozen snapshot of the pinned commit) must still be there, unchanged
 		if data, err := os.ReadFile(filepath.Join(os.Getenv("VERIF_ROOT"), "lean", "Rscp", "Snapshot", "Vocab.tsv")); err == nil {
@@ -243,50 +245,129 @@ func init() {
 	}
 }
 
+// coherentInputs: what the value constructor is fed for a data type — the smallest, an ordinary and the largest value
+func coherentInputs(d rscp.DataType) []interface{} {
+	switch d {
+	case rscp.None:
+		return []interface{}{nil}
+	case rscp.Container:
+		return []interface{}{[]rscp.Message{}, []rscp.Message{{Tag: 1, DataType: rscp.None}},
+			[]rscp.Message{{Tag: 2, DataType: rscp.CString, Value: ""}}, []rscp.Message{{Tag: 3, DataType: rscp.Container, Value: []rscp.Message{}}}}
+	case rscp.Error:
+		return []interface{}{rscp.RscpError(0), rscp.RscpError(7), rscp.RscpError(4294967295)}
+	case rscp.Timestamp:
+		return []interface{}{time.Unix(0, 0).UTC(), time.Unix(5, 6).UTC(), time.Unix(-1, 999999999).UTC(), time.Unix(1<<40, 0).UTC()}
+	case rscp.ByteArray:
+		return []interface{}{"", "x", "xyz", strings.Repeat("\x00", 33)}
+	case rscp.CString:
+		return []interface{}{"", "x", "xyz", strings.Repeat("a", 32), "\x00"}
+	case rscp.Bool:
+		return []interface{}{float64(0), float64(1)}
+	case rscp.Char8:
+		return []interface{}{float64(0), float64(1), float64(-128), float64(127)}
+	case rscp.UChar8, rscp.Bitfield:
+		return []interface{}{float64(0), float64(1), float64(255)}
+	case rscp.Int16:
+		return []interface{}{float64(0), float64(-32768), float64(32767)}
+	case rscp.UInt16:
+		return []interface{}{float64(0), float64(65535)}
+	case rscp.Int32:
+		return []interface{}{float64(0), float64(-2147483648), float64(2147483647)}
+	case rscp.Uint32:
+		return []interface{}{float64(0), float64(4294967295)}
+	}
+	return []interface{}{float64(0), float64(1), float64(1 << 40)}
+}
+
 // coherent: a value built for a data type is accepted by the validator, encoded in the declared number of bytes
-// and decoded to an equal value (Go-side oracle of C14, independent of the Lean model)
+// and decoded to an equal value (Go-side oracle of C14, independent of the Lean model) — for the smallest, an
+// ordinary and the largest value of the type, alone in a frame, last in a frame behind other items, and last in
+// a container, with and without checksum
 func coherent(d rscp.DataType) (why string) {
 	defer func() {
 		if r := recover(); r != nil {
 			why = fmt.Sprintf("panic: %v", r)
 		}
 	}()
-	var in interface{} = float64(1)
-	switch d {
-	case rscp.Container:
-		in = []rscp.Message{{Tag: 1, DataType: rscp.None}}
-	case rscp.Error:
-		in = rscp.RscpError(7)
-	case rscp.Timestamp:
-		in = time.Unix(5, 6).UTC()
-	case rscp.ByteArray, rscp.CString:
-		in = "xyz"
-	}
-	v, err := rscp.VerifNew(d, in)
-	if err != nil {
-		return "constructor fails: " + err.Error()
-	}
-	if !rscp.VerifIsValidValue(d, v) {
-		return fmt.Sprintf("constructor returns %T which the validator rejects", v)
-	}
-	m := rscp.Message{Tag: 0x00800001, DataType: d, Value: v}
-	if err := rscp.VerifValidate(m); err != nil {
-		return "validate rejects the built value: " + err.Error()
-	}
-	plain := plainFrame([]rscp.Message{m}, false, time.Unix(1, 0).UTC())
-	if plain == nil {
-		return "encoder fails"
-	}
-	l := int(plain[16]) | int(plain[17])<<8
-	if n := int(rscp.VerifLength(d)); n != 0 && l != 7+n {
-		return fmt.Sprintf("encoded in %d bytes, declared length %d", l-7, n)
-	}
-	got := readOnce(identityMode{}, plain)
-	if got != "ok "+msgsString([]rscp.Message{m}) {
-		return "decodes to " + trunc(got, 80)
-	}
-	if goKind(rscp.VerifNewEmpty(d, 3)) != goKind(v) {
-		return fmt.Sprintf("decoder allocates %s, constructor returns %s", goKind(rscp.VerifNewEmpty(d, 3)), goKind(v))
+	for _, in := range coherentInputs(d) {
+		v, err := rscp.VerifNew(d, in)
+		if err != nil {
+			return fmt.Sprintf("constructor fails for %v: %v", in, err)
+		}
+		if !rscp.VerifIsValidValue(d, v) {
+			return fmt.Sprintf("constructor returns %T which the validator rejects", v)
+		}
+		m := rscp.Message{Tag: 0x00800001, DataType: d, Value: v}
+		if err := rscp.VerifValidate(m); err != nil {
+			return fmt.Sprintf("validate rejects the value built from %v: %v", in, err)
+		}
+		if goKind(rscp.VerifNewEmpty(d, 3)) != goKind(v) {
+			return fmt.Sprintf("decoder allocates %s, constructor returns %s", goKind(rscp.VerifNewEmpty(d, 3)), goKind(v))
+		}
+		first := rscp.Message{Tag: 0x00800002, DataType: rscp.UChar8, Value: uint8(9)}
+		for _, ms := range [][]rscp.Message{{m}, {first, m}, {{Tag: 0x00800003, DataType: rscp.Container, Value: []rscp.Message{first, m}}}} {
+			for _, crc := range []bool{false, true} {
+				plain := plainFrame(ms, crc, time.Unix(1, 0).UTC())
+				if plain == nil {
+					return fmt.Sprintf("encoder fails for the value built from %v", in)
+				}
+				if len(ms) == 1 && ms[0].DataType == d {
+					l := int(plain[16]) | int(plain[17])<<8
+					if n := int(rscp.VerifLength(d)); n != 0 && l != 7+n {
+						return fmt.Sprintf("encoded in %d bytes, declared length %d", l-7, n)
+					}
+				}
+				if got := readOnce(identityMode{}, plain); got != "ok "+msgsString(ms) {
+					return fmt.Sprintf("the value built from %#v (items in frame %d, checksum %v) decodes to %s", in, len(ms), crc, trunc(got, 80))
+				}
+			}
+		}
 	}
 	return ""
+}
+
+// stressAPI drives the exported and the internal entry points of the package with ordinary and odd inputs before
+// the vocabulary is inspected: the vocabulary has to be the same after any history of calls
+func stressAPI(g *gen) {
+	try := func(f func()) {
+		defer func() { _ = recover() }()
+		f()
+	}
+	vals := []interface{}{nil, true, int8(1), uint8(1), int16(1), uint16(1), int32(1), uint32(1), int64(1), uint64(1), float32(1), float64(1),
+		"s", []byte{1}, time.Unix(1, 0), rscp.RscpError(1), []rscp.Message{}, 5, struct{}{}}
+	for d := 0; d < 256; d++ {
+		for _, v := range vals {
+			for _, t := range []rscp.Tag{rscp.RSCP_REQ_AUTHENTICATION, rscp.RSCP_AUTHENTICATION, 0x00800001, 0x7fffffff} {
+				m := rscp.Message{Tag: t, DataType: rscp.DataType(d), Value: v}
+				try(func() { _ = rscp.VerifValidateRequests([]rscp.Message{m}) })
+				try(func() { _ = rscp.VerifValidate(m) })
+				try(func() { _ = m.String() })
+			}
+		}
+		try(func() { _, _ = rscp.VerifNew(rscp.DataType(d), float64(1)) })
+		try(func() { _, _ = rscp.VerifNew(rscp.DataType(d), "x") })
+		try(func() { _ = rscp.VerifNewEmpty(rscp.DataType(d), 2) })
+		try(func() { _ = rscp.DataType(d).String() })
+		try(func() { _, _ = json.Marshal(rscp.Message{Tag: 1, DataType: rscp.DataType(d), Value: uint8(1)}) })
+		// a frame with one item of this type code and a few bytes of payload
+		for _, l := range []int{0, 1, 4, 8} {
+			p := frameBytes(itemBytes(0x00800001, byte(d), make([]byte, l)), true, 1, 0)
+			try(func() { _ = readOnce(identityMode{}, p) })
+		}
+	}
+	for i := 0; i < 200; i++ {
+		ms := g.tree()
+		try(func() { _ = rscp.VerifValidateRequests(ms) })
+		try(func() { _ = readOnce(identityMode{}, plainFrame(ms, i%2 == 0, time.Unix(1, 0))) })
+		try(func() { _, _ = json.Marshal(ms) })
+		try(func() { var back []rscp.Message; b, _ := json.Marshal(ms); _ = json.Unmarshal(b, &back) })
+		try(func() { _, _ = rscp.CreateRequest(g.argAlphabet()[:1+g.pick(6)]...) })
+	}
+	for _, s := range []string{"", "x", "None", "Error", "Container", "DataType(19)", "RSCP_REQ_AUTHENTICATION", "0", "4294967296"} {
+		try(func() { _, _ = rscp.TagString(s) })
+		try(func() { _, _ = rscp.DataTypeString(s) })
+		try(func() { var t rscp.Tag; _ = json.Unmarshal([]byte(`"`+s+`"`), &t) })
+		try(func() { var d rscp.DataType; _ = json.Unmarshal([]byte(`"`+s+`"`), &d) })
+	}
+	try(func() { _ = rscp.DataTypeValues(); _ = rscp.TagValues() })
 }
